@@ -79,6 +79,26 @@ def field_uses(c: Cls):
     return stores, inplace, loads
 
 
+def _only_reported(uses, fld: str) -> bool:
+    """every read of the field is in an accessor that just returns it (`return self.f`, a property), in __repr__/__str__, or is the
+    read half of `self.f += <const>` written as `self.f = self.f + 1`: the value is reported, never used to decide or compute
+    anything the operations do (hit / miss / eviction counters)"""
+    for f, n in uses:
+        if f.name in ("__repr__", "__str__"):
+            continue
+        body = [s for s in f.node.body if not (isinstance(s, ast.Expr) and isinstance(s.value, ast.Constant))]
+        if len(body) == 1 and isinstance(body[0], ast.Return) and body[0].value is n:
+            continue
+        st = n
+        while st is not None and not isinstance(st, ast.stmt):
+            st = getattr(st, "_parent", None)
+        if isinstance(st, ast.Assign) and len(st.targets) == 1 and dotted(st.targets[0]) == (f.self_name, fld) \
+                and isinstance(st.value, ast.BinOp) and st.value.left is n and isinstance(st.value.right, ast.Constant):
+            continue
+        return False
+    return True
+
+
 def derived_fields(c: Cls, primary: Set[str], config: Set[str] = frozenset()) -> Dict[str, Tuple[str, str]]:
     """field -> (why it counts as derived state, 'content' | 'identity')"""
     stores, inplace, loads = field_uses(c)
@@ -88,6 +108,8 @@ def derived_fields(c: Cls, primary: Set[str], config: Set[str] = frozenset()) ->
             continue
         if fld not in loads:
             continue                      # written but never read: cannot influence behaviour
+        if _only_reported(loads[fld], fld):
+            continue                      # a statistic: read only to be handed out (accessor / __repr__), it steers nothing
         why = None
         for f, n in stores.get(fld, []) + inplace.get(fld, []):
             if f.name != "__init__":
